@@ -21,13 +21,16 @@ LEVEL_TEXT = ('Lean 4 theorems, for all tilt lists, angles, samplings and OPDs: 
               'evaluate, for alpha = dx·du/(λ z os) (through C02 propagateField_sample); what fit_tilt subtracts is exactly the OPD ramp of '
               'the Tilt it records, for ANY coefficients, per segment and over any history; if the coefficients solve the normal equations '
               '(lstsq contract) and the Gram matrix is non-singular, every least-squares fit of the remaining OPD has zero tip/tilt and the '
-              'same piston; first-order dispersive displacement lies on its trace at arc length |d(λ)|. Tilt.__init__/shift, Field.shift units '
-              'and axes, ptt_vector rows, the subtracted rows/coefficients, the recorded indices and the tilt[n::size] stride are regenerated.')
+              'same piston; first-order dispersive displacement lies on its trace at arc length |d(λ)|. The field in the end-to-end theorems is the '
+              'plane model\'s segment phasor (C03/C07 segPhasor/planePh) and the theorem covers any list of angular elements; the tilt lists of '
+              'Wavefront(tilt), products and Tilt planes are derived from the generated wiring. Regenerated: Tilt.__init__/shift, first-order '
+              'DispersiveTilt.shift, Field.shift units and axes, ptt_vector rows, subtracted rows/coefficients, recorded indices, the tilt[n::size] '
+              'stride, Wavefront.__init__/Field.__mul__/TiltInterface.multiply list wiring.')
 LEVEL_NOTE = ('Partial: np.linalg.lstsq returning a solution of the normal equations is a contract (re-solved independently by the oracle); '
               'higher-order DispersiveTilt (scipy leastsq/quad) is oracle-only; list aliasing / reuse of wavefronts (Field.__mul__, '
               'TiltInterface.multiply) is covered by correspondence + oracle (tilt lists are values in the model). '
               'Trusted: Lean kernel, generator coverage, NumPy einsum/lstsq as modelled.')
-TECHNIQUE = 'Lean 4 proof (induction over tilt lists / histories, ring, Real.sqrt) over hand model with differential correspondence at Float'
+TECHNIQUE = 'Lean 4 proof (induction over tilt lists / histories, ring, Real.sqrt) over translator-regenerated tilt/fit wiring + hand model with differential correspondence at Float'
 GEN = ['Extent', 'Window', 'PropagateMeta', 'TiltFit']
 OPS = ['C02', 'C04']
 RULE = ('cases: (shift) lists of 1..4 angular / first-order dispersive / higher-order dispersive elements, all orderings, per-axis du, os 1..4; '
@@ -172,22 +175,21 @@ def _gen_reuse(rng):
     """one wavefront that already carries tilt (Wavefront(tilt=...), a fit_tilt'ed plane, or an earlier Tilt plane) is
     re-used for k >= 2 different Tilt planes (a scan over tilt angles), each product propagated"""
     c = _gen_equiv(rng)
-    while c['nseg'] != 1: c = _gen_equiv(rng)
     c['kind'] = 'reuse'
     c['base_kind'] = ['wave', 'fit', 'plane'][int(rng.integers(0, 3))]
+    if c['nseg'] > 1 and c['base_kind'] != 'fit':
+        c['tilt_px'] = [c['tilt_px'][0]] * c['nseg']          # a wavefront tilt / Tilt plane is common to all segments
     S = max(c['out_shape']) * c['os']
     scan = []
     for _ in range(int(rng.integers(2, 5))):
         s = float(rng.choice([0.4, 1.7, 3.0, S * 0.4]))
         scan.append([float(rng.uniform(-s, s)), float(rng.uniform(-s, s))])
-    base = c['tilt_px'][0]
-    if abs(base[0]) + abs(base[1]) > S: base = [base[0] / 8, base[1] / 8]
+    bases = [([b[0] / 8, b[1] / 8] if abs(b[0]) + abs(b[1]) > S else list(b)) for b in c['tilt_px']]
     # keep every total shift's fractional part away from 0 (np.fix insensitive to rounding)
     for t in scan:
         for a in (0, 1):
-            fr = abs(base[a] + t[a]) % 1.0
-            if fr < 0.05 or fr > 0.95: t[a] += 0.23
-    c['tilt_px'] = [base]; c['scan'] = scan; c['prop_shape'] = None
+            while any((abs(b[a] + t[a]) % 1.0) < 0.05 or (abs(b[a] + t[a]) % 1.0) > 0.95 for b in bases): t[a] += 0.23
+    c['tilt_px'] = bases; c['scan'] = scan; c['prop_shape'] = None
     return c
 
 SCALES = [1e-9, 1e-6, 1e-3, 1.0, 1e3]
@@ -352,27 +354,29 @@ def _impl_reuse(c):
     m, n = c['shape']
     lab = np.array(c['labels']).reshape(m, n)
     amp = np.array(c['amp']).reshape(m, n); base = np.array(c['base']).reshape(m, n)
-    mask = (lab > 0).astype(int)
+    nseg = c['nseg']
+    mask = np.array([(lab == k).astype(int) for k in range(1, nseg + 1)]) if nseg > 1 else (lab > 0).astype(int)
+    segmask = lambda k: (lab == k + 1) if nseg > 1 else (lab > 0)
     dx = c['dx'][0] if c['scalar_dx'] else tuple(c['dx'])
     mk = lambda opd: lentil.Pupil(amplitude=amp, opd=opd, mask=mask, pixelscale=dx, focal_length=Z)
     r = np.arange(m)[:, None] - m // 2; cc = np.arange(n)[None, :] - n // 2
-    ramp = lambda px: (lambda th: th[0] * r * c['dx'][0] - th[1] * cc * c['dx'][1])(_angles(c, px)) * (lab > 0)
+    ramp1 = lambda px: (lambda th: th[0] * r * c['dx'][0] - th[1] * cc * c['dx'][1])(_angles(c, px))
+    ramps = lambda pxs: sum(ramp1(px) * segmask(k) for k, px in enumerate(pxs))
     bx, by = _angles(c, c['tilt_px'][0])
     # the upstream wavefront, built ONCE
     if c['base_kind'] == 'wave': w0 = lentil.Wavefront(WL, tilt=[bx, by]) * mk(base)
     elif c['base_kind'] == 'plane': w0 = lentil.Wavefront(WL) * mk(base) * lentil.Tilt(x=bx, y=by)
-    else: w0 = lentil.Wavefront(WL) * mk(base + ramp(c['tilt_px'][0])).fit_tilt()
+    else: w0 = lentil.Wavefront(WL) * mk(base + ramps(c['tilt_px'])).fit_tilt()
     n0 = [len(f.tilt) for f in w0.data]
     sh0 = _prop(c, w0, None)['shifts']
-    # the tilt the upstream wavefront carries, in output samples (fit_tilt also picks up the tilt content of `base`)
     steps = []
     for px in c['scan']:
         thx, thy = _angles(c, px)
         w = w0 * lentil.Tilt(x=thx, y=thy)
         got = _prop(c, w, None)
         got['ntilt'] = [len(f.tilt) for f in w.data]
-        tot = [c['tilt_px'][0][0] + px[0], c['tilt_px'][0][1] + px[1]]
-        ref = _prop(c, lentil.Wavefront(WL) * mk(base + ramp(tot)), None)
+        tot = [[b[0] + px[0], b[1] + px[1]] for b in c['tilt_px']]
+        ref = _prop(c, lentil.Wavefront(WL) * mk(base + ramps(tot)), None)
         steps.append({'got': got, 'ref': ref})
     after = _prop(c, w0, None)
     return {'n0': n0, 'n0_after': [len(f.tilt) for f in w0.data], 'shift0': sh0, 'shift0_after': after['shifts'], 'steps': steps,
@@ -407,8 +411,11 @@ def requests(c, io):
             out = []
             for mk, t in zip(masks, rec):
                 mka = np.array(mk).reshape(m_, n_)
-                t0 = float(_lsq(c, np.array(opd).reshape(m_, n_), mka)[0]) if _mask_ok(mka) else 0.0
-                out.append({'mask': vlib.fl(mk), 't': vlib.fl([t0, t[0], t[1]])})
+                # the coefficient vector the model is fed is the harness' own least-squares solution (independent of what the
+                # implementation recorded) whenever it is unique; otherwise the recorded angles with piston 0
+                if _mask_ok(mka): tv = [float(v) for v in _lsq(c, np.array(opd).reshape(m_, n_), mka)]
+                else: tv = [0.0, t[0], t[1]]
+                out.append({'mask': vlib.fl(mk), 't': vlib.fl(tv)})
             return out
         rq = [{'op': 'c04.fit', 'shape': c['shape'], 'px': vlib.fl(c['px']), 'opd': vlib.fl(c['opd']),
                'segs': seg_t(c['opd'], io['mask'], io['tilt1'])}]
@@ -418,7 +425,7 @@ def requests(c, io):
                        'segs': seg_t(io['opd1u'], io['mask'], io['tilt2'][k:])})
         return rq
     if c['kind'] == 'reuse':
-        if c['base_kind'] == 'fit' or not io['shift0']: return []
+        if c['base_kind'] == 'fit' or c['nseg'] > 1 or not io['shift0']: return []
         bx, by = _angles(c, c['tilt_px'][0])
         rq = []
         for px in c['scan']:
@@ -452,26 +459,28 @@ def compare(c, io, mo):
         return None
     if c['kind'] == 'fit':
         sc = max(abs(v) for v in c['opd']) + 1e-12
-        if not _close(io['opd1'], vlib.unfl(mo[0]['opd']), sc, 1e-10): return 'opd after fit_tilt differs from the model (given the recorded coefficients)'
+        if not _close(io['opd1'], vlib.unfl(mo[0]['opd']), sc, 1e-8): return 'opd after fit_tilt differs from the model (fed an independent least-squares solution)'
         for k, (rec, mrec) in enumerate(zip(io['tilt1'], mo[0]['recorded'])):
-            if list(rec) != vlib.unfl(mrec): return f"segment {k}: recorded Tilt(x, y) = {rec}, model records {vlib.unfl(mrec)} for the same coefficients"
+            mr = vlib.unfl(mrec)
+            if any(abs(a - b) > 1e-7 * (abs(b) + 1e-9) + 1e-12 for a, b in zip(rec, mr)):
+                return f"segment {k}: recorded Tilt(x, y) = {rec}, the model records {mr} for the independent least-squares coefficients"
         if c['update'] is not None:
             if len(io['tilt2']) != 2 * c['nseg']: return f"{len(io['tilt2'])} tilts recorded after the second fit, expected {2 * c['nseg']}"
             if io['tilt2'][:c['nseg']] != io['tilt1']: return 'first recorded tilts changed by the second fit'
-            if not _close(io['opd2'], vlib.unfl(mo[1]['opd']), sc, 1e-10): return 'opd after the second fit_tilt differs from the model'
+            if not _close(io['opd2'], vlib.unfl(mo[1]['opd']), sc, 1e-8): return 'opd after the second fit_tilt differs from the model'
         return None
     if c['kind'] == 'reuse':
         for k, (m, st) in enumerate(zip(mo, io['steps'])):
             if not st['got']['shifts']: return f'scan step {k}: the product lost its field'
             want = vlib.unfl(m['ij'])
-            if not _close(st['got']['shifts'][0], want, max(1e-3, abs(want[0]), abs(want[1]))):
+            if not _close(st['got']['shifts'][0], want, max(1e-3, abs(c['tilt_px'][0][0]) + abs(c['scan'][k][0]), abs(c['tilt_px'][0][1]) + abs(c['scan'][k][1])), 1e-9):
                 return f"scan step {k}: shift of (upstream tilt, own Tilt plane): impl {st['got']['shifts'][0]} model {want}"
             if st['got']['ntilt'][0] != 2: return f"scan step {k}: product carries {st['got']['ntilt'][0]} tilt elements, model 2"
         return None
     if mo and io['reps']['multi12']['shifts']:
         sh = io['reps']['multi12']['shifts'][0]
         want = vlib.unfl(mo[0]['ij'])
-        if not _close(sh, want, max(1e-3, abs(want[0]), abs(want[1]))): return f"shift of a field with two Tilt elements: impl {sh} model {want}"
+        if not _close(sh, want, max(1e-3, 3 * abs(want[0]), 3 * abs(want[1])), 1e-9): return f"shift of a field with two Tilt elements: impl {sh} model {want}"
     return None
 
 # ------------------------------------------------------------------------------------------ oracle (real code only)
@@ -654,15 +663,16 @@ def _oracle_reuse(c, io):
         return w
     if io['n0_after'] != io['n0']:
         return f"multiplying by Tilt planes changed the upstream wavefront: its fields carried {io['n0']} tilt elements, now {io['n0_after']}"
-    if io['shift0'] and not _close(io['shift0_after'][0], io['shift0'][0], max(1e-3, abs(io['shift0'][0][0]), abs(io['shift0'][0][1])), 1e-9):
-        return f"the re-used upstream wavefront's shift changed from {io['shift0'][0]} to {io['shift0_after'][0]}"
+    for a_, b_ in zip(io['shift0_after'], io['shift0']):
+        if not _close(a_, b_, max(1e-3, abs(b_[0]), abs(b_[1])), 1e-9):
+            return f"the re-used upstream wavefront's shift changed from {b_} to {a_}"
     for k, st in enumerate(io['steps']):
         got, ref = st['got'], st['ref']
-        if got['shifts'] and io['shift0']:
-            want = [io['shift0'][0][0] + c['scan'][k][0], io['shift0'][0][1] + c['scan'][k][1]]
-            if not _close(got['shifts'][0], want, max(1e-3, abs(want[0]), abs(want[1])), 1e-9):
-                return (f"scan step {k}: Tilt plane {c['scan'][k]} px on the re-used wavefront (own shift {io['shift0'][0]}) is displaced by "
-                        f"{got['shifts'][0]}, expected the sum of exactly these two {want}")
+        for fi in range(min(len(got['shifts']), len(io['shift0']))):
+            want = [io['shift0'][fi][0] + c['scan'][k][0], io['shift0'][fi][1] + c['scan'][k][1]]
+            if not _close(got['shifts'][fi], want, max(1e-3, abs(io['shift0'][fi][0]) + abs(c['scan'][k][0]), abs(io['shift0'][fi][1]) + abs(c['scan'][k][1])), 1e-9):
+                return (f"scan step {k}, field {fi}: Tilt plane {c['scan'][k]} px on the re-used wavefront (own shift {io['shift0'][fi]}) is displaced by "
+                        f"{got['shifts'][fi]}, expected the sum of exactly these two {want}")
         w = window(got) & window(ref)
         if w.any():
             d = np.abs(fld(got) - fld(ref))
@@ -683,7 +693,7 @@ def oracle(c, io):
 # ------------------------------------------------------------------------------------------ coverage
 def signature(c):
     if c['kind'] == 'shift': return f"shift ks={c.get('KS')} n={len(c['tilts'])} {[e['k'] for e in c['tilts']][:6]} perm={c['perm']} os={c['os']} du={c['du'][0]:.4g},{c['du'][1]:.4g}"
-    if c['kind'] == 'reuse': return f"reuse {c['base_kind']} {c['shape']} S={c['out_shape']} os={c['os']} base={[round(v, 2) for v in c['tilt_px'][0]]} scan={[[round(v, 2) for v in t] for t in c['scan']]}"
+    if c['kind'] == 'reuse': return f"reuse nseg={c['nseg']} {c['base_kind']} {c['shape']} S={c['out_shape']} os={c['os']} base={[round(v, 2) for v in c['tilt_px'][0]]} scan={[[round(v, 2) for v in t] for t in c['scan']]}"
     if c['kind'] == 'fit': return f"fit ks={c.get('KS')} pre={c.get('preloaded') is not None} inpl={c['inplace']} {c['shape']} nseg={c['nseg']} px={c['px']} upd={c['update'] is not None} lab={c['labels'][:12]} opd0={c['opd'][0]:.4g}"
     return f"equiv {c['shape']} nseg={c['nseg']} S={c['out_shape']} os={c['os']} tilt={[[round(v, 2) for v in t] for t in c['tilt_px']]} ps={c['prop_shape']}"
 
@@ -701,7 +711,7 @@ def tags(c):
         t += sorted({'el:' + e['k'] for e in c['tilts']}); t.append(f"n={len(c['tilts'])}")
         if c['du'][0] != c['du'][1]: t.append('du:non-square')
     elif c['kind'] == 'reuse':
-        t.append('reuse:' + c['base_kind']); t.append(f"scan={len(c['scan'])}")
+        t.append('reuse:' + c['base_kind']); t.append(f"scan={len(c['scan'])}"); t.append(f"nseg={c['nseg']}")
         if c['du'][0] != c['du'][1]: t.append('du:non-square')
     elif c['kind'] == 'fit':
         t.append(f"nseg={c['nseg']}")
